@@ -45,11 +45,18 @@ def observe(binp, cases):
     have = [r for r in recs if "sx" in r]
     outs = C.run_model("simple", [r["sx"] for r in have]) if have else []
     mv = {r["id"]: model_view(o, r["strings"]) for r, o in zip(have, outs)}
+    # the declarative reading of Schema/SimpleAgree.v on the same cases: (inside the proved class?, its verdict)
+    frag = {}
+    if have:
+        for r, o in zip(have, C.run_model("simplefrag", [r["sx"] for r in have])):
+            x = C.parse_sx(o)
+            if len(x) == 2:
+                frag[r["id"]] = (x[0] == 1, x[1] == 1)
     out = []
     for c, r in zip(cases, recs):
         out.append({"case": c, "skip": r.get("skip"), "go": go_view(r["go"]) if "go" in r else None,
                     "go_raw": r.get("go"), "go_recycled": go_view(r["go_recycled"]) if "go_recycled" in r else None,
-                    "model": mv.get(r["id"]), "orc": r.get("orc", {})})
+                    "model": mv.get(r["id"]), "orc": r.get("orc", {}), "frag": frag.get(r["id"])})
     return out
 
 
